@@ -143,6 +143,20 @@ def random_graph_jobs(rnd, n, mode, maxref=6, maxhap=4, maxlen=5, maxwalk=6, nwa
                 run = names[k : k + rnd.randint(1, 4)]
                 w = [(o, x) for x in (run if o == ">" else run[::-1])] + w[: rnd.randint(0, 2)]
             walks.append((f"w{wi}", w))
+        # detours that start and end on the reference contig: through another node of EXACTLY the skipped node's length
+        # (an equal-length allele), through the skipped node inverted, and the same walks reversed
+        chain = sorted((x for x in names if segs[x]["sn"] == "chr1"), key=lambda x: segs[x]["so"])
+        extra = []
+        for k in range(len(chain) - 2):
+            a, m, b = chain[k : k + 3]
+            same = [x for x in names if x not in (a, m, b) and segs[x]["ln"] == segs[m]["ln"]]
+            cands = [[(">", a), ("<", m), (">", b)]] + ([[(">", a), (">", rnd.choice(same)), (">", b)]] if same else [])
+            for w in cands:
+                extra.append(w)
+                extra.append([("<" if o == ">" else ">", x) for o, x in reversed(w)])
+        rnd.shuffle(extra)
+        for wi, w in enumerate(extra[:6]):
+            walks.append((f"d{wi}", w))
         jobs.append((f"R{gi}", segs, walks, mode, rnd.choice(["plain", "bgzf"]), rnd.random() < 0.3))
     return jobs
 
